@@ -104,6 +104,9 @@ pub enum Op {
     Batch { items: Vec<(u16, WKind)> },
     /// write `n` consecutive pool keys starting at index fraction `start` (bulk load / bulk delete)
     Fill { start: u16, n: u16, len: u8, del: bool, one_seqno: bool },
+    /// two writers that drew consecutive seqnos and finished in the opposite order: key `a` is inserted
+    /// with the LATER seqno first, then key `b` (a different key) with the earlier one
+    Swapped { a: u16, b: u16, len: u8 },
     Rotate,
     Flush { wm: u16 },
     FlushActive { wm: u16 },
